@@ -144,6 +144,45 @@ Definition check_dist_t (opt periodic : bool) (G : Z) (xyz : list frame) (boxes 
     | _, _, _ => [4]
     end) times obs.
 
+(* ---- tie detection for the cross-path oracle (optimised vs reference path over the WHOLE separation range):
+   1 = the two paths may legitimately differ on this separation: a rounding tie (within the guard) of the box
+   reduction or of the wrap in either path, or two of the 27 candidates within the float band of the shortest;
+   0 = C05's paths_agree applies: distances and displacements must coincide. *)
+Definition argmin_ambiguous (G : Z) (B' : box) (w : vec) : bool :=
+  let ns := map (fun c => norm2 (snd c)) (cands B' w) in
+  let m := fold_left Z.min ns (norm2 w) in
+  (2 <=? Z.of_nat (length (filter (fun n => in_band G n m) ns))).
+
+Definition cross_tie (ortho : bool) (G : Z) (B : box) (r : vec) : Z :=
+  if negb (diag_posb B) then 4 else
+  if ortho then (if on_boundary G B (mic_ortho rnd_htz B r) then 1 else 0) else
+  let one p := let rn := rmode_of p in let B' := reduce rn B in
+               reduce_tie G B' || on_boundary G B' (wrap rn B' r) || argmin_ambiguous G B' (wrap rn B' r) in
+  if one PTricCpp || one PTricNp then 1 else 0.
+
+Definition all_ortho (boxes : option (list box)) : bool :=
+  match boxes with Some bs => forallb is_orthob bs | None => true end.
+
+Definition check_ties (G : Z) (xyz : list frame) (boxes : option (list box)) (pairs : list (nat * nat)) : list (list Z) :=
+  map (fun fi : nat * frame =>
+    match box_at boxes (fst fi) with
+    | None => [4]
+    | Some B => map (fun pr => match sep (snd fi) (snd fi) pr with
+                               | Some r => cross_tie (all_ortho boxes) G B r | None => 4 end) pairs
+    end) (combine (seq 0 (length xyz)) xyz).
+
+Definition check_ties_t (G : Z) (xyz : list frame) (boxes : option (list box)) (pairs : list (nat * nat))
+           (times : list (nat * nat)) : list (list Z) :=
+  map (fun t : nat * nat =>
+    match nth_error xyz (fst t), nth_error xyz (snd t), box_at boxes (fst t) with
+    | Some f1, Some f2, Some B =>
+        map (fun pr => match sep f1 f2 pr with
+                       | Some r => if (cross_tie (all_ortho boxes) G B r =? 0) && (cross_tie (all_ortho boxes) G B (vneg r) =? 0)
+                                   then 0 else 1
+                       | None => 4 end) pairs
+    | _, _, _ => [4]
+    end) times.
+
 (* find_closest_contact(traj, group1, group2, frame): first pair (group1-major) with the strictly
    smallest wrapped squared distance; reports (atom1, atom2, interval check of the distance).
    Returns (verdict, atom1, atom2). *)
